@@ -62,6 +62,15 @@ TEMPLATES = [
     "if P(1, 0):\n    P(2)\nelif P(3, 1):\n    P(4)\nelse:\n    P(5)",
     "if P(1, 0):\n    P(2)\nelif P(3, 0):\n    P(4)\nelif P(5, 0):\n    P(6)\nelse:\n    P(7)",
     "n = [0]\nwhile P(1, n[0] < 2):\n    n[0] += 1\n    P(2)\nelse:\n    P(3)",
+    # conditions of loops that are left early: evaluated as often as Python does, not once more
+    "n = [0]\nwhile P(1, n[0] < 5):\n    n[0] += 1\n    if P(2, n[0] == 2):\n        break\n    P(3)\nelse:\n    P(4)",
+    "n = [0]\nwhile P(1, n[0] < 3):\n    n[0] += 1\n    if P(2, n[0] == 2):\n        continue\n    P(3)\nelse:\n    P(4)",
+    "n = [0]\nwhile P(1, 1):\n    n[0] += 1\n    if P(2, n[0] >= 2):\n        break",
+    "n = [0]\nwhile P(1, n[0] < 5) and P(2, 1):\n    n[0] += 1\n    if P(3, n[0] == 1):\n        continue\n    elif P(4, n[0] == 3):\n        break\n    P(5)",
+    "for z in P(1, [1, 2]):\n    n = [0]\n    while P(2, n[0] < 3):\n        n[0] += 1\n        if P(3, n[0] == 2):\n            break\n    if P(4, z == 1):\n        continue\n    P(5)",
+    "n = [0]\nwhile P(1, n[0] < 2):\n    n[0] += 1\n    for z in P(2, [1, 2]):\n        if P(3, z == n[0]):\n            break\n    else:\n        P(4)\n        break\n    P(5)",
+    "for z in P(1, [1, 2, 3]):\n    if P(2, z == 2):\n        continue\n    P(3, z)\nelse:\n    P(4)",
+    "for z in P(1, [1, 2, 3]):\n    if P(2, z == 2):\n        break\n    P(3, z)\nelse:\n    P(4)",
     "for z in P(1, [1, 2]):\n    P(2, z)",
     "for P(1, o).a in P(2, [1, 2]):\n    P(3)",
     "for P(1, b)[P(2, 'k')] in P(3, [1, 2]):\n    P(4)",
@@ -133,6 +142,8 @@ TEMPLATES_IN_FUNC_ONLY = [
     "return P(1, 1)",
     "if P(1, 1):\n    return P(2, 2)\nP(3)",
     "for z in P(1, [1, 2]):\n    return P(2, z)",
+    "n = [0]\nwhile P(1, n[0] < 5):\n    n[0] += 1\n    if P(2, n[0] == 2):\n        return P(3, n[0])\n    P(4)\nP(5)",
+    "n = [0]\nwhile P(1, n[0] < 2):\n    n[0] += 1\n    for z in P(2, [1, 2]):\n        while P(3, 1):\n            if P(4, z == 2):\n                return P(5, z)\n            break\nP(6)",
 ]
 SETUP = {
     "P(1, o).a %s": "o.a = MK('binary_only', 1)\n",
